@@ -159,7 +159,11 @@ func wrap(t *rapid.T, kind string, next http.Handler, intervene bool) http.Handl
 		must(err)
 		return h
 	case "trace":
-		h, err := trace.New(next, io.Discard, trace.RequestHeaders("X-A"), trace.ResponseHeaders("X-A"))
+		var sink io.Writer = io.Discard
+		if rapid.IntRange(0, 2).Draw(t, "brokenSink") == 0 {
+			sink = brokenSink{} // a full disk or closed pipe: no reason to touch the response
+		}
+		h, err := trace.New(next, sink, trace.RequestHeaders("X-A"), trace.ResponseHeaders("X-A"))
 		must(err)
 		return h
 	case "connlimit":
@@ -219,6 +223,9 @@ func wrap(t *rapid.T, kind string, next http.Handler, intervene bool) http.Handl
 		if intervene {
 			opts = append(opts, buffer.MaxRequestBodyBytes(10))
 		}
+		if rapid.IntRange(0, 3).Draw(t, "verboseBuffer") == 0 {
+			opts = append(opts, buffer.Verbose(true), buffer.Logger(formatLogger{}))
+		}
 		h, err := buffer.New(next, opts...)
 		must(err)
 		return h
@@ -226,6 +233,18 @@ func wrap(t *rapid.T, kind string, next http.Handler, intervene bool) http.Handl
 	t.Fatalf("unknown layer %s", kind)
 	return nil
 }
+
+type brokenSink struct{}
+
+func (brokenSink) Write([]byte) (int, error) { return 0, io.ErrClosedPipe }
+
+// formatLogger formats its arguments like a real logger.
+type formatLogger struct{}
+
+func (formatLogger) Debug(f string, a ...interface{}) { _ = fmt.Sprintf(f, a...) }
+func (formatLogger) Info(f string, a ...interface{})  { _ = fmt.Sprintf(f, a...) }
+func (formatLogger) Warn(f string, a ...interface{})  { _ = fmt.Sprintf(f, a...) }
+func (formatLogger) Error(f string, a ...interface{}) { _ = fmt.Sprintf(f, a...) }
 
 // plainWriter exposes only the basic ResponseWriter of a recorder: a connection
 // that can be neither hijacked nor flushed (HTTP/2, a test recorder, ...).
@@ -281,7 +300,11 @@ func newRequest(bodyLen int) *http.Request {
 		body = bytes.NewReader(bytes.Repeat([]byte("r"), bodyLen))
 		method = "POST"
 	}
-	return httptest.NewRequest(method, "http://front/path?x=1", body)
+	req := httptest.NewRequest(method, "http://front/path?x=1", body)
+	if bodyLen > 0 {
+		req.Header.Set("Content-Type", "application/x-www-form-urlencoded")
+	}
+	return req
 }
 
 func TestC20_Transparent(t *testing.T) {
